@@ -3,4 +3,4 @@
 Require Import Oracle.
 Require Import ExtrOcamlBasic.
 Extraction Language OCaml.
-Extraction "oracle_model.ml" Oracle.run.
+Extraction "oracle_model.ml" Oracle.run_engine.
